@@ -7,7 +7,7 @@ THEOREMS = ['C04_bump_disjoint', 'C04_bump_inside', 'C04_ceiling_div_covers', 'C
             'C04_declared_size_is_exact', 'C04_objects_disjoint_and_inside', 'C04_account_invariant',
             'C04_refused_edit_changes_nothing', 'C04_account_nonvacuous']
 RECIPES = ['exact_fill', 'exact_fill_plus', 'ptable_boundary', 'ptable_boundary_dup_late', 'ce_gap_plus', 'ce_gap_exact',
-           'ce_gap_minus', 'big_records', 'deep_tree', 'udf_fid_cross']
+           'ce_gap_minus', 'big_records', 'deep_tree', 'udf_fid_cross', 'udf_fid_churn']
 
 
 def linked_of(b):
